@@ -1,4 +1,5 @@
 import Rivaas.Lemmas.OpenAPIProv
+set_option linter.unusedSimpArgs false
 /-
 C07 — helper lemmas: from the shape of the built operations to the Boolean oracle (`opPathParamsOK`,
 `wfOperation`, `wfSchema`) on the projected document.
